@@ -1,85 +1,8 @@
 /-
 C26 — property theorems.
 -/
-import TornadoModel.C26.Spec
+import TornadoModel.C26.Inv2
 namespace TornadoModel.C26
-
-/-- a proper path component: non-empty, not `.`, not `..`, contains no `/` -/
-def Good (c : Str) : Prop := c ≠ [] ∧ c ≠ dot ∧ c ≠ dotdot ∧ cSlash ∉ c
-
-theorem splitOn_no_sep (sep : Nat) (s : Str) : ∀ c ∈ splitOn sep s, sep ∉ c := by
-  induction s with
-  | nil => intro c hc; simp [splitOn] at hc; subst hc; simp
-  | cons x t ih =>
-    intro c hc
-    unfold splitOn at hc
-    split at hc
-    · simp only [List.mem_cons] at hc
-      rcases hc with hc | hc
-      · subst hc; simp
-      · exact ih c hc
-    · rename_i hx
-      split at hc
-      · simp at hc; subst hc; simp; exact fun h => hx h.symm
-      · rename_i w ws hw
-        simp only [List.mem_cons] at hc
-        rcases hc with hc | hc
-        · subst hc
-          have := ih w (by rw [hw]; simp)
-          simp only [List.mem_cons, not_or]
-          exact ⟨fun h => hx h.symm, this⟩
-        · exact ih c (by rw [hw]; simp [hc])
-
-theorem normStep_good (init : Nat) (hinit : init ≠ 0) (acc : List Str) (comp : Str)
-    (hacc : ∀ c ∈ acc, Good c) (hcomp : cSlash ∉ comp) : ∀ c ∈ normStep init acc comp, Good c := by
-  unfold normStep
-  split
-  · exact hacc
-  · rename_i h1
-    simp only [not_or] at h1
-    split
-    · rename_i h2
-      rcases h2 with h2 | h2 | h2
-      · intro c hc
-        simp only [List.mem_cons] at hc
-        rcases hc with hc | hc
-        · subst hc; exact ⟨h1.1, h1.2, h2, hcomp⟩
-        · exact hacc c hc
-      · exact absurd h2.1 hinit
-      · -- the top of the stack would be `..`, which is not a Good component
-        exfalso
-        cases acc with
-        | nil => simp at h2
-        | cons a t =>
-          simp at h2
-          have := hacc a (by simp)
-          exact this.2.2.1 h2
-    · intro c hc
-      exact hacc c (List.mem_of_mem_tail hc)
-
-theorem foldl_normStep_good (init : Nat) (hinit : init ≠ 0) (comps : List Str) (hc : ∀ c ∈ comps, cSlash ∉ c) :
-    ∀ acc, (∀ c ∈ acc, Good c) → ∀ c ∈ comps.foldl (normStep init) acc, Good c := by
-  induction comps with
-  | nil => intro acc h; exact h
-  | cons x t ih =>
-    intro acc h
-    simp only [List.foldl_cons]
-    apply ih (fun c hc' => hc c (by simp [hc']))
-    exact normStep_good init hinit acc x h (hc x (by simp))
-
-theorem initialSlashes_abs (p : Str) (h : isAbs p = true) : initialSlashes p = 1 ∨ initialSlashes p = 2 := by
-  unfold initialSlashes
-  split
-  · simp
-  · simp
-  · simp
-  · rename_i hx
-    exfalso
-    cases p with
-    | nil => simp [isAbs] at h
-    | cons a t =>
-      have : a = 47 := by simpa [isAbs, cSlash] using h
-      exact hx t (by rw [this])
 
 /-- **normpath_no_dotdot.**  For every absolute path `p` (in particular `join(root, url_path)` for an absolute root),
 `normpath p` is one or two slashes followed by `/`-joined components none of which is empty, `.`, `..` or contains
@@ -266,12 +189,21 @@ theorem pjoin_simple (a d : Str) (ha : a ≠ []) (hs : a.getLast? ≠ some cSlas
   unfold pjoin
   simp [hd, ha, hs]
 
-/-- `prefix_is_containment` (string test ⇔ component-wise containment in the sense of `Spec.inside`, for a
-root other than `/`).  Stated; applied by the oracle to every filesystem query of every case (tie only);
-`normpath_no_dotdot` + `sibling_excluded` are its proved ingredients. -/
-def prefix_is_containment_goal : Prop :=
-  ∀ (root p : Str), isAbs root = true → isAbs p = true → Spec.resolve root ≠ [] →
-    (prefixTest root (normpath p) = true ↔ (initialSlashes root = initialSlashes p ∧ Spec.inside root p = true))
+/-- **prefix_is_containment.**  For an absolute root other than `/` and any absolute path `p`, the string test of
+`validate_absolute_path` on the normalized path — `(normpath(p) + "/").startswith(abspath(root) + "/")` — passes
+exactly when `p` lies inside `root` component-wise (`Spec.inside`: the walk of `root` is a list prefix of the walk of
+`p`) and both have the same kind of beginning (one slash, or exactly two — POSIX keeps `//x` apart from `/x`).
+This is what excludes `..` escapes *and* sibling directories that merely share the root's name as a text prefix. -/
+theorem prefix_is_containment (root p : Str) (hr : isAbs root = true) (hp : isAbs p = true)
+    (hne : Spec.resolve root ≠ []) :
+    (prefixTest root (normpath p) = true ↔ (initialSlashes root = initialSlashes p ∧ Spec.inside root p = true)) :=
+  prefixTest_iff root p hr hp hne
+
+/-- the form used by the handler: the root test on `abspath(join(root, url_path))` is containment in the root -/
+theorem root_test_is_containment (root urlPath : Str) (hr : isAbs root = true) (hne : Spec.resolve root ≠ []) :
+    (prefixTest root (absolutePath root urlPath) = true
+      ↔ (initialSlashes root = initialSlashes (pjoin root urlPath) ∧ Spec.inside root (pjoin root urlPath) = true)) :=
+  prefixTest_iff root (pjoin root urlPath) hr (pjoin_abs root urlPath hr) hne
 
 /-! ### non-vacuity -/
 def exRoot : Str := [47, 119, 47, 114]                          -- "/w/r"
@@ -284,6 +216,11 @@ example : serve { root := exRoot } [] [46, 46, 47, 115] exFs = (.forbidden, []) 
 example : absolutePath exRoot [46, 46, 47, 114, 50, 47, 120] = [47, 119, 47, 114, 50, 47, 120] := by decide
 example : prefixTest exRoot (absolutePath exRoot [46, 46, 47, 114, 50, 47, 120]) = false := by decide
 example : isAbs exRoot = true := by decide
+example : Spec.resolve exRoot ≠ [] := by decide
+-- "/w/r" contains "/w/x/../r/a" and not its sibling "/w/r2/a"
+example : Spec.inside exRoot [47, 119, 47, 120, 47, 46, 46, 47, 114, 47, 97] = true := by decide
+example : prefixTest exRoot (normpath [47, 119, 47, 120, 47, 46, 46, 47, 114, 47, 97]) = true := by decide
+example : Spec.inside exRoot [47, 119, 47, 114, 50, 47, 97] = false := by decide
 example : normpath [47, 47, 97, 47, 46, 46, 47, 47, 98, 47, 46, 47] = [47, 47, 98] := by decide   -- "//a/..//b/./" → "//b"
 
 end TornadoModel.C26
